@@ -109,6 +109,8 @@ def next_cut_post(prop):
             r = sym.lift(p.value, INT).z
             res.oblige(p, f'{prop}.next_cut.range', z3.And(0 <= r, r <= s))
             res.oblige(p, f'{prop}.next_cut.productive', z3.Implies(r == 0, z3.Or(z3.And(z3.Not(final), s < M), s == 0)))
+            # not final and fewer than max bytes buffered: wait for more data (needed by bounds_outside_tail)
+            res.oblige(p, f'{prop}.next_cut.waits_for_data', z3.Implies(z3.And(z3.Not(final), s < M), r == 0))
             res.oblige(p, f'{prop}.next_cut.bounds', z3.Implies(nontail, z3.And(m <= r, r <= M, r % 4 == 0)))
             res.oblige(p, f'{prop}.next_cut.tail_rule', z3.Implies(z3.And(final, s < 2 * M), r == z3.If(
                 s <= M, s, z3.If(s < M + m, s / 2, M))), tag='helper')
@@ -341,6 +343,7 @@ def c10_lemmas(prop):
         final = z3.Bool('final')
         nontail = z3.Or(z3.And(z3.Not(final), s >= M), z3.And(final, s >= 2 * M))
         contract = [Q(m, M), 0 <= r, r <= s, z3.Implies(r == 0, z3.Or(z3.And(z3.Not(final), s < M), s == 0)),
+                    z3.Implies(z3.And(z3.Not(final), s < M), r == 0),
                     z3.Implies(nontail, z3.And(m <= r, r <= M, r % 4 == 0))]
         # the adapter hands next_cut the not yet chunked bytes from stream position p; R = total - p remain;
         # s <= R and final => s == R (C10.call.final_flag + lossless invariant)
